@@ -138,9 +138,33 @@ long hx_alloc_seq = 0;
 int64_t hx_live_bytes = 0;
 static int hx_nfault = 0; static int hx_fault_k[2]; static int hx_fault_fired = 0;
 
-static inline int fault_now(void) {
+#include <dlfcn.h>
+static void fault_note(void *pc0, void *pc1) {
+    Dl_info a, b; const char *f0 = "?", *f1 = "?";
+    if (pc0 && dladdr(pc0, &a) && a.dli_sname) f0 = a.dli_sname;
+    if (pc1 && dladdr(pc1, &b) && b.dli_sname) f1 = b.dli_sname;
+    char t[160]; snprintf(t, sizeof t, "failed_alloc_in=%s<-%s", f0, f1);
+    hx_note_set(t);
+}
+#define fault_now() fault_now_(__builtin_return_address(0), __builtin_frame_address(0))
+static inline int fault_now_(void *ra, void *fp) {
     hx_alloc_seq++;
-    for (int i = 0; i < hx_nfault; i++) if (hx_fault_k[i] == hx_alloc_seq) { hx_fault_fired++; return 1; }
+    for (int i = 0; i < hx_nfault; i++) if (hx_fault_k[i] == hx_alloc_seq) {
+        hx_fault_fired++;
+        /* caller of the wrapper = libhtp function containing the allocation; its caller via the frame chain */
+        /* walk the frame chain and keep the first two frames that are not generic helpers */
+        void *pcs[8]; int np = 0; pcs[np++] = ra;
+        void **f = (void **) fp;
+        for (int d = 0; d < 7 && f && f[0] && (void **) f[0] > f; d++) { f = (void **) f[0]; if (!f[1]) break; pcs[np++] = f[1]; }
+        void *keep[2] = { NULL, NULL }; int nk = 0;
+        for (int i = 0; i < np && nk < 2; i++) {
+            Dl_info di; const char *nm = (dladdr(pcs[i], &di) && di.dli_sname) ? di.dli_sname : NULL;
+            if (nm && (!strncmp(nm, "bstr_", 5) || !strncmp(nm, "htp_list_", 9) || !strncmp(nm, "htp_table_", 10) || !strncmp(nm, "__wrap", 6) || !strncmp(nm, "htp_hook_", 9) || !strncmp(nm, "copy_or_wrap", 12))) continue;
+            keep[nk++] = pcs[i];
+        }
+        fault_note(keep[0] ? keep[0] : ra, keep[1]);
+        return 1;
+    }
     return 0;
 }
 static inline void track_add(void *p, size_t n) {
